@@ -420,3 +420,39 @@ impl Separators {
         }
     }
 }
+
+
+/// conditional-directive ladders and nests of n branches (the parser walks one pass per branch)
+pub fn directive_ladders(max_n: usize) -> Vec<String> {
+    let mut out = vec![];
+    let mut sizes: Vec<usize> = (1..=max_n).collect();
+    sizes.extend([150, 300]);
+    for n in sizes {
+        // {$IF c0} x0; {$ELSEIF c1} x1; ... {$ELSE} xn; {$ENDIF}
+        let mut s = String::from("begin\n{$IF c0}\n  x0;\n");
+        for i in 1..n {
+            s.push_str(&format!("{{$ELSEIF c{i}}}\n  x{i} := {i};\n"));
+        }
+        s.push_str("{$ELSE}\n  y;\n{$ENDIF}\n  z;\nend.\n");
+        out.push(s);
+        // {$IFDEF a0} x0 {$ELSE} {$IFDEF a1} x1 {$ELSE} ... {$ENDIF} {$ENDIF}
+        let mut s = String::from("begin\n");
+        for i in 0..n {
+            s.push_str(&format!("{{$IFDEF a{i}}} x{i}; {{$ELSE}} "));
+        }
+        s.push_str("y;");
+        for _ in 0..n {
+            s.push_str(" {$ENDIF}");
+        }
+        s.push_str("\n  z;\nend.\n");
+        out.push(s);
+        // the same ladder inside one expression
+        let mut s = String::from("x := {$IF c0} 0");
+        for i in 1..n {
+            s.push_str(&format!(" {{$ELSEIF c{i}}} {i}"));
+        }
+        s.push_str(" {$ELSE} -1 {$ENDIF};\n");
+        out.push(s);
+    }
+    out
+}
